@@ -298,3 +298,12 @@ fn k_mask_super_blit_span() {
     kani::cover!(w == 3 && p1 == p2 && x2c > x1l);
     kani::cover!(x2 - ox * 4 > 4 * w);
 }
+
+// ---------------------------------------------------------------- helper for K.push_clip_driver_* (stub of MaskSuperBlitter::new)
+pub static mut COV: [u8; 7] = [0; 7];
+pub fn super_blitter_sym(x: i32, y: i32, width: i32, height: i32) -> MaskSuperBlitter {
+    let mut buf = vec![0u8; (width * height) as usize + 1];
+    let mut i = 0;
+    while i < 7 { if i < buf.len() { buf[i] = unsafe { COV[i] }; } i += 1; }
+    MaskSuperBlitter { x: x * SCALE, y: y * SCALE, width, buf }
+}
